@@ -180,6 +180,10 @@ func (t *Taint) may(v ssa.Value, seen map[ssa.Value]bool) bool {
 		return t.may(x.X, seen)
 	case *ssa.Index:
 		return t.may(x.X, seen)
+	case *ssa.BinOp:
+		if t.spec.Carrier(x.Type()) {
+			return t.may(x.X, seen) || t.may(x.Y, seen)
+		}
 	}
 	return false
 }
@@ -219,7 +223,13 @@ func (t *Taint) loadMay(addr ssa.Value, seen map[ssa.Value]bool) bool {
 func (t *Taint) callMay(call *ssa.Call, idx int, seen map[ssa.Value]bool) bool {
 	cc := call.Common()
 	if bi, ok := cc.Value.(*ssa.Builtin); ok {
-		_ = bi // builtins (append, copy ...) do not create tainted values: stores are sinks
+		if bi.Name() == "min" || bi.Name() == "max" {
+			for _, a := range cc.Args {
+				if t.may(a, seen) {
+					return true
+				}
+			}
+		}
 		return false
 	}
 	if obj := calleeObj(call); obj != nil && t.spec.Sanitizer(obj) {
